@@ -1,10 +1,14 @@
 //! plsim — deterministic simulation with fault injection for `pricelevel`.
 
 mod checks_s;
+mod checks_t;
+mod conc;
+mod sched;
 mod core;
 mod driver;
 mod genh;
 mod model;
+mod pool;
 mod prng;
 mod seq;
 mod spec;
@@ -14,6 +18,9 @@ use std::path::PathBuf;
 
 fn check_for(prop: &str) -> Option<Box<dyn Check>> {
     if let Some(c) = checks_s::make(prop) {
+        return Some(Box::new(c));
+    }
+    if let Some(c) = checks_t::make(prop) {
         return Some(Box::new(c));
     }
     None
